@@ -74,6 +74,13 @@ SlotsOnlyGrow(pre, post) ==
 (* in EOM mode).                                                              *)
 FallWeak(c, op) == IF c.eb = <<>> THEN op.fs ELSE Min2(op.fs, op.fe)
 FallStrong(c, op) == IF c.eb = <<>> THEN op.fs ELSE Max2(op.fs, op.fe)
+(* reported duration with fall time: exact on a channel that never used the EOM; on one that did, *)
+(* anything between the two readings of the last pulse's fall time (DESIGN 12.2)                  *)
+DurFallInBand(c, x) ==
+  LET lp == LastPulseIdx(c, FALSE) IN
+  IF lp = 0 THEN x = ChanDur(c)
+  ELSE /\ x >= Max2(ChanDur(c), c.sl[lp].tf + FallWeak(c, c.sl[lp]))
+       /\ x <= Max2(ChanDur(c), c.sl[lp].tf + FallStrong(c, c.sl[lp]))
 
 (* end (with fall time) of the most recent conflicting slot of channel j *)
 ConflictEnd(st, j, mytg, proto, strong) ==
@@ -300,9 +307,18 @@ Viol(pre, c, r, h) ==
   (IF ~Tiling(post) THEN {"C02.Tiling"} ELSE {})
   \cup (IF ~SlotsOnlyGrow(pre, post) THEN {"C02.SlotsOnlyGrow"} ELSE {})
   \cup (IF \E j \in 1..Len(post.ch) :
-             ChanDurFall(CfgOf(post, j), post.ch[j]) # DeclDurFall(post.ch[j])
+             ~DurFallInBand(post.ch[j], ChanDurFall(CfgOf(post, j), post.ch[j]))
         THEN {"C02.DurFall"} ELSE {})
   \cup (IF ~rawOk /\ post # pre THEN {"C09.FailUnchanged"} ELSE {})
+  \* the documented effect of a successful call is there: the channel addresses the atoms it was told to,
+  \* a plain delay lengthens the channel by the requested time (rounded up to what the clock can represent)
+  \cup (IF ok /\ pre.bld /\ post.bld /\ c.op = "target" /\ i # 0 /\ ChIdx(post, c.nm) # 0
+           /\ LastOf(post.ch[ChIdx(post, c.nm)].sl).tg # c.tg
+        THEN {"C09.TargetTakesEffect"} ELSE {})
+  \cup (IF ok /\ pre.bld /\ post.bld /\ c.op = "delay" /\ ~c.rest /\ i # 0 /\ ChIdx(post, c.nm) # 0
+           /\ LET d == ChanDur(post.ch[ChIdx(post, c.nm)]) - ChanDur(pre.ch[i]) IN
+              ~(IF c.d = 0 THEN d = 0 ELSE d >= c.d /\ d < c.d + cfgi.clock /\ d % cfgi.clock = 0)
+        THEN {"C09.DelayTakesEffect"} ELSE {})
   \cup (IF c.op \in ReadOnly /\ post # pre THEN {"C09.ReadOnly"} ELSE {})
   \* ---- C13 -------------------------------------------------------------
   \cup (IF Measured(pre) /\ (Timeline(post) # Timeline(pre) \/ (c.op \in TimelineChanging /\ rawOk))
@@ -377,6 +393,18 @@ Viol(pre, c, r, h) ==
                                PMod(Pulses[c.p].ph + (CHOOSE x \in RefPhases(pre, bi, lastTg) : TRUE)),
                                t, TRUE))
         THEN {"C01.AcceptInside"} ELSE {})
+  \* the same converse for a DMM: a waveform that is never positive and stays above the per-atom and total
+  \* bottom detuning of THIS channel's map is accepted (devices without a sequence-duration limit)
+  \cup (IF c.op = "dmm_add" /\ pre.bld /\ ~IsPar(c) /\ r.out \in {"VE", "TE"} /\ i # 0 /\ ~Measured(pre)
+           /\ cfgi.kind = "dmm" /\ c.proto \in Protocols /\ DevOf(pre).maxSeq = -1
+           /\ pre.slmNm # c.nm                    \* the DMM of the SLM mask is documented not to take user pulses
+           /\ LET P == Pulses[c.p] IN
+              /\ P.fin /\ P.am = 0 /\ P.dx <= 0
+              /\ (cfgi.bottom # NoLim => pre.ch[i].mp[1] * P.dn >= 2 * cfgi.bottom)
+              /\ (cfgi.tbottom # NoLim => pre.ch[i].mp[2] * P.dn >= 2 * cfgi.tbottom)
+              /\ P.dur >= cfgi.minDur /\ (cfgi.maxDur # -1 => P.dur <= cfgi.maxDur)
+              /\ P.dur % cfgi.clock = 0
+        THEN {"C01.AcceptInsideDmm"} ELSE {})
   \* ---- C03 -------------------------------------------------------------
   \cup (IF isAdd /\ ~StartAllowed(pre, i, proto, NewPh, new.ti, FALSE)
         THEN {"C03.NoConflict"} ELSE {})
@@ -436,6 +464,15 @@ Viol(pre, c, r, h) ==
         THEN {"C15.EomSquare"} ELSE {})
   \cup (IF ok /\ i # 0 /\ c.op \in {"eom_on", "eom_mod", "eom_off"} /\ ~BuffersOK(pre, post, c, i)
         THEN {"C15.Buffers"} ELSE {})
+  \* the off-detuning of a new block is the member of the allowed set closest to the requested optimum
+  \* (dref: computed by the harness from the option set, ties included; empty when not computable)
+  \cup (IF ok /\ i # 0 /\ c.op \in {"eom_on", "eom_mod"} /\ pre.bld /\ post.bld
+           /\ Len(post.ch[i].eb) > 0
+           /\ LET S == SP[pre.dev][pre.ch[i].cid][c.sp]
+                  b == LastOf(post.ch[i].eb)
+              IN "dref" \in DOMAIN S /\ Len(S.dref) > 0
+                 /\ \A k \in 1..Len(S.dref) : Abs(b.doff - S.dref[k]) > 1
+        THEN {"C15.OffDetuningClosest"} ELSE {})
   \* the mode of every channel is the one its successful enable / disable calls document; charged to
   \* the step that introduces the disagreement (the channel agreed with its calls before the step)
   \cup (IF post.bld
